@@ -68,9 +68,11 @@ def run(ctx):
                       {"case_seed": f["seed"], "text": f["text"], "detail": f["detail"], "case": f["case"],
                        "how": "./check C11 --replay <this file>"})
     by_sig, explained = {}, 0
+    known_open = {k["signature"] for k in ctx.known_open}
     for cid, sig, desc in items:
         base = cid[:-5] if cid.endswith("-proj") else cid
-        if base in summ.get("failed_cases", {}):
+        # explained only by a predicate failure on this very case that is not a known finding
+        if not cid.endswith("-proj") and any(s not in known_open for s in summ.get("failed_cases", {}).get(base, [])):
             explained += 1
             continue
         if cid.endswith("-proj"):
